@@ -213,7 +213,7 @@ def fixed_step(spec, ref, keys, outputs, solver, dt, m, nrows, dts, T, cutoff, j
     # offline: reference iterates of the reference RHS
     rows = list(range(jcut * m, steps, m))
     exps = []
-    for stage2 in (['same'] if not (solver == 'heun' and input_fn) else ['same', 'next']):
+    for stage2 in ['same']:      # both Heun stages of integration step k use input sample k (C08)
         exp_full = observe.ref_trajectory(ref, keys, steps, dt, heun=(solver == 'heun'), input_fn=input_fn, stage2=stage2)
         exps.append(exp_full[rows])
     got = df.values
